@@ -4,6 +4,7 @@
 cd "$(dirname "$0")/.."
 props="$*"
 for d in seeded/*/; do
+  if grep -q "\"superseded\"" "$d/meta.json" 2>/dev/null; then continue; fi
   n=$(basename "$d"); p=${n%%-*}
   if [ -n "$props" ]; then case " $props " in *" $p "*) ;; *) continue;; esac; fi
   tools/seeded.sh "$d" "$p" 2>&1 | grep '^SEEDED'
